@@ -26,6 +26,7 @@ ASSUMPTIONS = [
     'TCP model: reliable ordered byte stream; segmentation and delay only (no loss/reorder inside a connection)',
     'observation by pass-through wrappers on Connection.reader_async and on the wire bytes; the wrappers record only',
     'ROUTE-REFRESH length faults are not generated (RFC 7313 7/1 vs RFC 4271 1/2 is arguable)',
+    'NOTIFICATION length faults are not generated here: RFC 4271 6.4 forbids answering them, judged by C10',
 ]
 SHRINK_LISTS = ['msgs', 'segs']
 
@@ -100,7 +101,9 @@ def build_message(spec: dict, idx: int) -> bytes:
 
 
 def generate(rng, tier: str, index: int) -> dict:
-    ext = rng.chance(0.5)
+    ext_local = rng.chance(0.6)
+    ext_peer = rng.chance(0.6)
+    ext = ext_local and ext_peer  # extended messages only when both sides advertise them
     mx = 65535 if ext else 4096
     msgs = []
     nmsg = rng.randint(1, 30 if tier == 'thorough' else 14)
@@ -130,14 +133,14 @@ def generate(rng, tier: str, index: int) -> dict:
         elif f == 'marker':
             msgs.append({'k': 'bad', 'f': 'marker', 'bit': rng.randint(0, 127)})
         elif f == 'short':
-            msgs.append({'k': 'bad', 'f': 'short', 'len': rng.choice([0, 1, 18, rng.randint(0, 18)]), 'type': rng.choice([1, 2, 3, 4, 5])})
+            msgs.append({'k': 'bad', 'f': 'short', 'len': rng.choice([0, 1, 18, rng.randint(0, 18)]), 'type': rng.choice([1, 2, 4, 5])})
         elif f == 'long':
             if ext:
                 msgs.append({'k': 'bad', 'f': 'type-len', 'type': 4, 'len': rng.choice([20, 4096, 65535])})
             else:
                 msgs.append({'k': 'bad', 'f': 'long', 'len': rng.choice([4097, 4098, 65535, rng.randint(4097, 65535)])})
         elif f == 'type-len':
-            t = rng.choice([1, 2, 3, 4])
+            t = rng.choice([1, 2, 4])  # a NOTIFICATION with a bad length is C10's business (RFC 4271 6.4: not answered)
             ln = {1: rng.randint(19, 28), 2: rng.randint(19, 22), 3: rng.randint(19, 20), 4: rng.choice([20, 21, 23, 100])}[t]
             msgs.append({'k': 'bad', 'f': 'type-len', 'type': t, 'len': ln})
         else:
@@ -169,6 +172,8 @@ def generate(rng, tier: str, index: int) -> dict:
         'micro_seed': rng.randint(1, 1 << 48),
         'knobs': knobs(rng),
         'ext': ext,
+        'ext_local': ext_local,
+        'ext_peer': ext_peer,
         'eager': rng.chance(0.3),
         'start_delay': rng.choice([0.0, 0.01, 0.2, 1.5]),
         'msgs': msgs,
@@ -183,11 +188,13 @@ def generate(rng, tier: str, index: int) -> dict:
 def execute(plan: dict) -> dict:
     w = make_world(plan)
     ext = plan['ext']
+    ext_local = plan.get('ext_local', ext)
+    ext_peer = plan.get('ext_peer', ext)
     neighbor = {
         'peer_ip': PEER, 'local_ip': LOCAL, 'local_as': 65001, 'peer_as': 65002, 'router_id': LOCAL, 'hold': 180,
-        'families': [(1, 1)], 'caps': {'extended-message': ext, 'route-refresh': True},
+        'families': [(1, 1)], 'caps': {'extended-message': ext_local, 'route-refresh': True},
     }  # fmt: skip
-    spk = Speaker(w, 'p1', PEER, 65002, PEER, LOCAL, hold=180, caps=speaker_caps({'asn': 65002, 'extmsg': ext}))
+    spk = Speaker(w, 'p1', PEER, 65002, PEER, LOCAL, hold=180, caps=speaker_caps({'asn': 65002, 'extmsg': ext_peer}))
     spk.periodic_keepalive = False
     w.net.split_p = 0.0
     w.boot(config_text([], [neighbor]))
